@@ -34,7 +34,7 @@ ASSUMPTIONS = [
 REQUIRED = {"fed_evaluations": 5000, "best_eval_checks": 5000,
             "e2e_runs_judged": 100}
 MIN_NONTRIVIAL = {"quick": 100, "thorough": 500}
-PLAN = [("fed", 1600, 24000), ("e2e", 500, 8000), ("e2e_nan", 500, 8000)]
+PLAN = [("fed", 1600, 24000), ("e2e", 500, 8000), ("e2e_nan", 500, 8000), ("cross", 300, 6000)]
 
 TOL = 1e-8
 
@@ -160,9 +160,12 @@ def run_case(case):
         with ctx.suspended():
             return run_fed(case)
     rng = e2e.rng_of(ID, case)
-    spec = gen.general(rng, with_faults=(case["fam"] == "e2e_nan"),
-                       maxfev=(20, 100), fun_none=0.05,
-                       forms=("nlc", "dict_ineq"))
+    if case["fam"] == "cross":
+        spec, _src = e2e.cross_spec(ID, case)
+    else:
+        spec = gen.general(rng, with_faults=(case["fam"] == "e2e_nan"),
+                           maxfev=(20, 100), fun_none=0.05,
+                           forms=("nlc", "dict_ineq"))
     if case["fam"] == "e2e_nan" and rng.random() < 0.3 and \
             spec["obj"]["kind"] != "none":
         spec["faults"] = [{"target": "obj", "val": "nan",
